@@ -119,8 +119,9 @@ def component(prop, tier, rep):
     builds = ("BuildFn", "BuildSecond", "BuildAbs")
     hs = [h for h in hs if any(a["act"] in builds for a in h) and any(a["act"] not in builds for a in h)]
     total = len(hs)
-    if tier == "quick":
-        hs = common.subsample_stratified(hs, 3000, salt="registry", key=lambda h: tuple(a["act"] for a in h))
+    # (the replay is sequential: every history starts from a reset registry; the thorough tier takes a stratified 40000)
+    hs = common.subsample_stratified(hs, 3000 if tier == "quick" else 40000, salt="registry",
+                                     key=lambda h: tuple(a["act"] for a in h))
     variants = _variants()
     recs = []
     for tid, h in enumerate(hs):
